@@ -961,10 +961,40 @@ impl NamespaceHierarchy {
     /// # Arguments
     ///
     /// * `linkage_name`: mangled subroutine name
+    /// If a demangled name ends with generic arguments (`...::<A, B<C>>`) return the position of
+    /// the `::` in front of them.
+    fn generic_args_start(demangled: &str) -> Option<usize> {
+        if !demangled.ends_with('>') {
+            return None;
+        }
+        let mut depth = 0usize;
+        for (i, c) in demangled.char_indices().rev() {
+            match c {
+                // `->` of a function pointer type
+                '>' if demangled[..i].ends_with('-') => {}
+                '>' => depth += 1,
+                '<' => {
+                    depth = depth.checked_sub(1)?;
+                    if depth == 0 {
+                        return demangled[..i].ends_with("::").then(|| i - 2);
+                    }
+                }
+                _ => {}
+            }
+        }
+        None
+    }
+
     #[inline(always)]
     pub fn from_mangled(linkage_name: &str) -> (Self, String) {
         let demangled = rustc_demangle::demangle(linkage_name);
         let demangled = format!("{demangled:#}");
+        // the v0 mangling scheme renders an instance of a generic function as
+        // `path::name::<args>`: the arguments are not a component of the path
+        let demangled = match Self::generic_args_start(&demangled) {
+            Some(args_start) => &demangled[..args_start],
+            None => demangled.as_str(),
+        };
         let mut parts: Vec<_> = demangled.split("::").map(ToString::to_string).collect();
         debug_assert!(!parts.is_empty());
         let fn_name = parts.pop().expect("function name must exists");
